@@ -524,6 +524,8 @@ def execute(plan):
                     viol(("tilt" if k == "remove_tiptilt" else "power") + "-idem", i, k, bits, exc=type(e).__name__)
                 if k == "remove_tiptilt":
                     _tilt_plane(np, ifg, before, data_now, mdl, i, k, bits, viol)
+                else:
+                    _power_refit(np, ifg, data_now, mdl, i, k, bits, viol)
             if k == "filter":
                 bump(probes, "filter_applied")
         _invariants(np, ifg, mdl, i, k, bits, viol)
@@ -592,6 +594,40 @@ def _power_class(np, mdl):
     if rho2.size and float(rho2.max() - rho2.min()) <= 1e-9 * max(1.0, float(rho2.max())):
         return "single-radius"
     return ""
+
+
+def _power_refit(np, ifg, after, mdl, i, k, bits, viol):
+    """"Re-fitting the removed term to the result finds nothing", independently: a least-squares fit
+    of [rho^2, 1] to what is left.  Which radius 'power' is measured in is the routine's choice, so
+    either the per-axis normalised radius (linspace(-1, 1) on each axis) or the physical radius of the
+    object's own x, y is accepted.  Not judged when power cannot be told from piston."""
+    v = mdl.valid
+    if int(v.sum()) < 3 or _power_class(np, mdl) == "single-radius":
+        return
+    z = after[v].astype(float)
+    m, n = mdl.shape
+    xx, yy = np.meshgrid(np.linspace(-1, 1, n) if n > 1 else np.zeros(1), np.linspace(-1, 1, m) if m > 1 else np.zeros(1))
+    bases = [(xx * xx + yy * yy)[v]]
+    c = copy.deepcopy(ifg)
+    try:
+        x, y = np.asarray(c.x, dtype=float), np.asarray(c.y, dtype=float)
+        if x.shape == after.shape and y.shape == after.shape:
+            bases.append((x * x + y * y)[v])
+    except Exception:
+        pass
+    left = []
+    for b in bases:
+        span = float(b.max() - b.min())
+        if not span > 1e-9 * max(float(np.abs(b).max()), 1e-300):
+            continue
+        bc = (b - b.mean()) / span
+        A = np.stack([bc, np.ones_like(bc)], axis=1)
+        cf, *_ = np.linalg.lstsq(A, z, rcond=None)
+        left.append(abs(float(cf[0])))            # peak-to-valley of the power term that is left
+    from prysm.conf import config as _cfg
+    lowp = _cfg.precision == np.float32 or after.dtype == np.float32
+    if left and not min(left) <= (1e-3 if lowp else 1e-7) * mdl.scale:
+        viol("power-refit", i, k, bits, left=min(left), scale=mdl.scale)
 
 
 def _tilt_plane(np, ifg, before, after, mdl, i, k, bits, viol):
